@@ -1798,11 +1798,32 @@ class Program:
                 continue
             b = g.nodes[g.body]
             kids = [x for x in b.get("ch", []) if x >= 0] if b["k"] == "CompoundStmt" else []
-            if len(kids) != 1 or g.nodes[kids[0]]["k"] != "ReturnStmt" or not g.ch(kids[0]):
-                continue
             # only helpers private to one translation unit or one function: a lambda, a static function, one in an anonymous namespace
             # (an exported function is an interface: rules name it, and its callers are not rewritten)
-            if not (g.kind == "lambda" or (g.kind == "function" and (g.d.get("static") or re.match(r"c:[^@]+\.(c|cc|cpp|cxx|h|hpp)@", g.usr)))):
+            is_new_helper = False
+            try:
+                is_new_helper = g.kind == "function" and "%s:%s" % (os.path.basename(g.file), g.name) not in INVENTORY()["functions"]
+            except (OSError, ValueError, KeyError):
+                pass
+            if not (g.kind == "lambda" or is_new_helper or (g.kind == "function" and (g.d.get("static") or re.match(r"c:[^@]+\.(c|cc|cpp|cxx|h|hpp)@", g.usr)))):
+                continue
+            if len(kids) == 2 and g.nodes[kids[0]]["k"] == "IfStmt" and g.nodes[kids[1]]["k"] == "ReturnStmt" and g.ch(kids[1]) and \
+                    g.nodes[kids[0]].get("else", -1) in (-1, None) and not g.d.get("singleExit") and is_new_helper and \
+                    not any((g.nodes[x].get("callee") or {}).get("usr") == g.usr for x in g.walk()):
+                # N7b: `if (c) return A; return B;` is `return c ? A : B;`
+                th = g.nodes[kids[0]]["then"]
+                th = g.ch(th)[0] if g.nodes[th]["k"] == "CompoundStmt" and len(g.ch(th)) == 1 else th
+                if g.nodes[th]["k"] == "ReturnStmt" and g.ch(th):
+                    c_, a_, b_ = g.nodes[kids[0]]["cond"], g.ch(th)[0], g.ch(kids[1])[0]
+                    g.nodes.append(dict(k="ConditionalOperator", ch=[c_, a_, b_], t=g.nodes[b_].get("t", ""), loc=g.nodes[kids[1]]["loc"], f=g.nodes[kids[1]].get("f"), synthetic=True))
+                    cn = len(g.nodes) - 1
+                    g.nodes.append(dict(k="ReturnStmt", value=cn, ch=[cn], loc=g.nodes[kids[1]]["loc"], f=g.nodes[kids[1]].get("f"), synthetic=True))
+                    rn = len(g.nodes) - 1
+                    b["ch"] = [rn]
+                    g._parent = None
+                    g.d["conditionalReturn"] = True
+                    kids = [rn]
+            if len(kids) != 1 or g.nodes[kids[0]]["k"] != "ReturnStmt" or not g.ch(kids[0]):
                 continue
             expr = g.ch(kids[0])[0]
             if any(g.nodes[x]["k"] in ("LambdaExpr", "CXXThisExpr", "CXXNewExpr", "CXXDeleteExpr", "CXXThrowExpr", "StmtExpr") for x in g.walk(expr)):
